@@ -33,6 +33,7 @@ import CoreDhcp.Props.GenAlloc6
 import CoreDhcp.Props.GenLoadPlugins
 import CoreDhcp.Props.GenRange4
 import CoreDhcp.Props.GenFilePlugin
+import CoreDhcp.Props.GenConfig
 open CoreDhcp
 #print axioms C20_offset_exact
 #print axioms C20_offset_symm
@@ -252,3 +253,29 @@ open CoreDhcp
 #print axioms GEN_file_static_after_load
 #print axioms Gen7.wf_init
 #print axioms Gen7.wf_load
+#print axioms GEN_cfg_splitHostPort_eq
+#print axioms GEN_cfg_getListenAddress_eq
+#print axioms GEN_cfg_getListenAddress_no_panic
+#print axioms GEN_cfg_expand_eq
+#print axioms GEN_cfg_expand_no_panic
+#print axioms GEN_cfg_defaultListen_eq
+#print axioms GEN_cfg_defaultListen_no_panic
+#print axioms GEN_cfg_listenLoop_acc
+#print axioms GEN_cfg_listenLoop_eq
+#print axioms GEN_cfg_listenLoop_no_panic
+#print axioms GEN_cfg_parseListen_eq
+#print axioms GEN_cfg_parseListen_no_panic
+#print axioms GEN_cfg_pluginsLoop_acc
+#print axioms GEN_cfg_pluginsLoop_no_panic
+#print axioms GEN_cfg_parsePlugins_eq
+#print axioms GEN_cfg_parsePlugins_no_panic
+#print axioms GEN_cfg_getPlugins_eq
+#print axioms GEN_cfg_getPlugins_no_panic
+#print axioms GEN_cfg_parseSection_eq
+#print axioms GEN_cfg_parseSection_absent
+#print axioms GEN_cfg_parseConfig_no_panic
+#print axioms GEN_cfg_load_eq
+#print axioms GEN_cfg_load_no_panic
+#print axioms GEN_cfg_bad_version
+#print axioms GEN_cfg_load_v6_first
+#print axioms GEN_cfg_parseConfig_plugins_first
